@@ -1,6 +1,7 @@
 import Martian.Lemmas.Marbl
 import Martian.Generated.Marbl
 import Martian.Props.C19.Writer
+import Martian.Props.C19.Calls
 /-!
 C19 — marbl streams decode to the logged messages with intact, ordered bodies.
 Only property theorems and non-vacuity examples live here.
